@@ -162,7 +162,7 @@ func Run(c *core.RunCtx) {
 		c.Sample = map[string]interface{}{"config": fmt.Sprintf("%+v", s.cfg), "pools": fmt.Sprintf("%q", s.g.p), "commands": s.ncmd, "env_events": s.nenv,
 			"multi_command_apply_batches": s.nbatched, "head": s.sample}
 	} else {
-		c.NonTrivial = s.scans >= 3 && s.pages >= 10 && c.Stats["probe.scan_multi_page"] >= 1
+		c.NonTrivial = s.scans >= 3 && s.pages >= 6 && c.Stats["probe.scan_multi_page"] >= 1
 		c.Sample = map[string]interface{}{"config": fmt.Sprintf("%+v", s.cfg), "scan_chains": s.scans, "pages": s.pages, "head": s.scanSample}
 	}
 }
